@@ -123,7 +123,28 @@ def calculations(rng, pp):
     ]
 
 
+def bfsw_net(rng, pp):
+    """single-voltage meshed net fed at bus 0 with a dcline and user generators: the sweep solver's PV loop is exercised"""
+    net = pp.create_empty_network()
+    n = rng.randint(4, 7)
+    b = [pp.create_bus(net, 110.) for _ in range(n)]
+    pp.create_ext_grid(net, b[0], 1.02)
+    for i in range(n - 1):
+        pp.create_line_from_parameters(net, b[i], b[i + 1], rng.choice([5., 15.]), 0.1, 0.3, 10., 1.)
+    if rng.random() < 0.7:
+        pp.create_line_from_parameters(net, b[-1], b[0], 20., 0.1, 0.3, 10., 1.)
+    for i in range(1, n):
+        if rng.random() < 0.7:
+            pp.create_load(net, b[i], rng.choice([10., 30.]), 5.)
+    pp.create_gen(net, b[rng.randint(1, n - 1)], 20., vm_pu=rng.choice([1.0, 1.03]))
+    a, c = rng.sample(b[1:], 2)
+    pp.create_dcline(net, a, c, p_mw=rng.choice([5., 15.]), loss_percent=1., loss_mw=0.1, vm_from_pu=rng.choice([1.0, 1.02]), vm_to_pu=1.01)
+    return net
+
+
 def calc_net(rng, pp, name):
+    if name == "runpp_bfsw_pv":
+        return bfsw_net(rng, pp)
     if name.startswith("calc_sc") or name == "runpp_3ph":
         kinds = ("line", "trafo", "load", "sgen", "switch", "shunt", "oos") + (("gen",) if name != "runpp_3ph" else ())
         net = netgen.random_net(rng, kinds=kinds, dcline=rng.random() < 0.7 and name != "runpp_3ph", allow_oos=rng.random() < 0.4)
